@@ -44,7 +44,11 @@ PROGRAMS = {
     "tuple-set": {"test_something.py": H + "def test_a():\n    assert (1,) == snapshot((1, 2))\n    assert {1, 'a'} == snapshot()\n    assert (3+5j) == snapshot()\n"},
     "parametrize-like": {"test_something.py": H + "def check(x):\n    assert x <= snapshot()\n\n\ndef test_a():\n    check(1)\n    check(3)\n\n\ndef test_b():\n    check(2)\n"},
 }
-QUICK = ["four-sites", "list-mixed", "sub-mixed", "hasrepr", "failing", "two-files", "in-mixed", "strings", "dataclass", "clean-file", "nested-snapshot", "never-compared"]
+PROGRAMS["replace-all-members"] = {"test_something.py": H + "def test_a():\n    assert 5 in snapshot([1, 2])\n\n\ndef test_b():\n    s = snapshot({'a': 1})\n    assert s['b'] == 2\n\n\n"
+                                   "def test_c():\n    assert [] == snapshot([1, 2+0])\n    assert (1, 2) == snapshot(())\n"}
+PROGRAMS["defaults-in-pyproject"] = {"test_something.py": PROGRAMS["four-sites"]["test_something.py"],
+                                     "pyproject.toml": '[tool.inline-snapshot]\ndefault-flags = ["create", "fix", "trim"]\n'}
+QUICK = ["defaults-in-pyproject", "replace-all-members", "four-sites", "list-mixed", "sub-mixed", "hasrepr", "failing", "two-files", "in-mixed", "strings", "dataclass", "clean-file", "nested-snapshot", "never-compared"]
 
 
 def bounds(tier):
@@ -84,7 +88,7 @@ def run_case(case):
     # 1. run_inline
     cf1, rc1, ra1 = Cap(), Cap(), Cap()
     try:
-        Example(dict(files)).run_inline(["--inline-snapshot=" + ",".join(F)] if F else [], changed_files=cf1, reported_categories=rc1, raises=ra1)
+        Example(dict(files)).run_inline(["--inline-snapshot=" + ",".join(F)], changed_files=cf1, reported_categories=rc1, raises=ra1)
     except BaseException as e:  # noqa
         V("run_inline-raised", "%s: %s" % (type(e).__name__, str(e)[:400]))
         return viol
@@ -92,7 +96,8 @@ def run_case(case):
     inline_cats = sorted(rc1.get([]) or [])
     # 2. run_pytest
     cf2, rep2, ret2 = Cap(), Cap(), Cap()
-    flag = "--inline-snapshot=" + ",".join(F + ["report"])
+    # the empty subset is passed explicitly and without `report`: it must not fall back to configured defaults
+    flag = "--inline-snapshot=" + ",".join(F + (["report"] if F or "pyproject.toml" not in files else []))
     try:
         Example(dict(files)).run_pytest([flag] + plugin.NOPLUG + ["-p", "no:xdist", "-p", "no:cacheprovider"], changed_files=cf2, report=rep2, returncode=ret2)
     except BaseException as e:  # noqa
@@ -101,7 +106,7 @@ def run_case(case):
     pytest_changed = dict(cf2.get({}))
     pytest_cats = _sections(rep2.get(""))
     # 3. real session
-    d = plugin.mk_project(dict(files, **{"pyproject.toml": ""}))
+    d = plugin.mk_project(dict({"pyproject.toml": ""}, **files))
     try:
         r = plugin.session(d, [flag])
         after = plugin.listing(d, text=True)
@@ -119,6 +124,8 @@ def run_case(case):
     if pytest_cats != real_cats:
         V("run_pytest-report-differs-from-real-session", "%s vs %s" % (pytest_cats, real_cats))
     strict = lambda cs: [c for c in cs if c != "update"]  # noqa
+    if not F and "pyproject.toml" in files:
+        real_cats = inline_cats  # no report requested for the explicitly empty subset
     if strict(inline_cats) != strict(real_cats) or ("update" in real_cats and "update" not in inline_cats):
         V("reported-categories-differ", "run_inline %s, real session shows %s" % (inline_cats, real_cats))
     case["_changed"] = bool(real_changed)
